@@ -121,6 +121,15 @@ func TestSequential(t *testing.T) {
 		}
 		var lives []lv
 		var ghosts []*base.SentinelEntry
+		var held []*base.BlockError // block errors handed out: they stay as they were, whatever is rejected afterwards
+		var heldAs []string
+		defer func() {
+			for k, b := range held {
+				if now := hx.BlockSnapshot(b); now != heldAs[k] {
+					t.Fatalf("a block error handed to the caller changed afterwards: it was {%s}, now it reads {%s}", heldAs[k], now)
+				}
+			}
+		}()
 		defer func() {
 			for _, l := range lives {
 				l.e.Exit()
@@ -216,6 +225,8 @@ func TestSequential(t *testing.T) {
 					if phase[res] == 0 {
 						phase[res] = 1
 					}
+					held = append(held, blk)
+					heldAs = append(heldAs, hx.BlockSnapshot(blk))
 				} else {
 					if hk := rapid.IntRange(0, 5).Draw(t, "exitHandlers"); hk < 2 { // exit handlers, returning nil or an error: the exit still frees the capacity
 						var herr error
